@@ -34,10 +34,13 @@ BoolBit(p) == IF p THEN 1 ELSE 0
 PadTo8(n) == (8 - (n % 8)) % 8
 CeilDiv8(n) == (n + 7) \div 8
 
-\* flatten a sequence of sequences (recursion over the outer sequence only)
+\* flatten a sequence of sequences; divide and conquer keeps the recursion depth logarithmic
 RECURSIVE ConcatR(_, _, _)
-ConcatR(ss, i, acc) == IF i > Len(ss) THEN acc ELSE ConcatR(ss, i + 1, acc \o ss[i])
-Concat(ss) == ConcatR(ss, 1, <<>>)
+ConcatR(ss, lo, hi) ==
+  IF lo > hi THEN <<>>
+  ELSE IF lo = hi THEN ss[lo]
+  ELSE LET mid == (lo + hi) \div 2 IN ConcatR(ss, lo, mid) \o ConcatR(ss, mid + 1, hi)
+Concat(ss) == ConcatR(ss, 1, Len(ss))
 
 Bytes2Bits(bytes) ==
   [i \in 1..(8 * Len(bytes)) |-> (bytes[((i - 1) \div 8) + 1] \div Pow2(7 - ((i - 1) % 8))) % 2]
